@@ -591,6 +591,12 @@ func (hc *connectUnaryHandlerConn) Close(err error) error {
 	}
 	// In unary Connect, errors always use application/json.
 	hc.responseWriter.Header().Set(headerContentType, connectUnaryContentTypeJSON)
+	// The error's metadata went into the headers. An error that was received
+	// from another server (and is being passed on) describes the body of that
+	// server's response, not ours: the JSON below is neither compressed nor of
+	// that length.
+	hc.responseWriter.Header().Del(connectUnaryHeaderCompression)
+	hc.responseWriter.Header().Del("Content-Length")
 	hc.responseWriter.WriteHeader(connectCodeToHTTP(CodeOf(err)))
 	var wire *connectWireError
 	if connectErr, ok := asError(err); ok {
